@@ -135,6 +135,17 @@ def build_case(P, rng, nmsgs=12):
         l = lit(sch, m)
         lines += ['pack ' + l, 'rt ' + l, 'check ' + l,
                   'acc %d X%s' % (ty, encode(sch, m, rng, {'pad': rng.random() < 0.5, 'shuffle': rng.random() < 0.5}).hex())]
+    # the declared defaults are shared, read-only objects: parsing values into fields that have one (here: one byte, then
+    # the default's length minus one, into every string / bytes field with a non-empty default) must leave them as declared
+    # -- fresh messages are examined once more at the very end (seeded change S96)
+    for ty, m in enumerate(sch.msgs):
+        for f in m.fields:
+            if f.label != L_REP and f.type in (T_STRING, T_BYTES) and f.dflt is not None and f.dflt[0] in ('S', 'B') and len(f.dflt[1]) > 0:
+                for n in sorted({1, max(1, len(f.dflt[1]) - 1), len(f.dflt[1])}):
+                    body = bytes((0xa5 ^ k) & 0x7f or 0x21 for k in range(n))
+                    lines.append('acc %d X%s' % (ty, (enc_key(f.id, 2) + enc_varint(n) + body).hex()))
+    for ty in range(len(sch.msgs)):
+        lines += ['initdump %d' % ty, 'init %d' % ty, 'unpack %d X' % ty]
     return lines
 
 
@@ -297,6 +308,9 @@ def evaluate(pid, run):
                     fails.append((i, 'field table is not the declared fields sorted by number'))
                 else:
                     for x, f in zip(flds, m.fields):
+                        if not P.code_size(P.infile[ty]) and x[0] != emitted_name(P, ty, f):
+                            fails.append((i, 'field %d: the descriptor carries the name %r, the .proto says %r' % (f.id, x[0], emitted_name(P, ty, f))))
+                            break
                         if int(x[3]) != f.type or int(x[2]) != f.label or (int(x[4]) & 1) != (1 if f.packed else 0) or \
                                 ((int(x[4]) & 4) != 0) != f.oneof or x[7] != protogen.dflt_tok_desc(f):
                             fails.append((i, 'field %d: emitted label/type/flags/default %s differ from the .proto' % (f.id, ':'.join(x[2:]))))
